@@ -46,6 +46,23 @@ QUERY = ("contains", "iter", "get", "back", "binary_search", "range")
 QROOT = ("h", "qabs")
 
 
+_TV = {}
+
+
+def timer_vectors(facts):
+    """vector numbers the 8-bit timer passes to request_interrupt, as observed by the tick analysis of rules/c17"""
+    if "v" not in _TV:
+        try:
+            from rules import c17
+            import cli
+            r_ = cli.Result("C17")
+            c17.run({"facts": facts, "tier": "quick", "seed": 0, "prop": "C17", "arg": None}, r_)
+            _TV["v"] = set(c17.OBSERVED_VECTORS) if not r_.errors else None
+        except Exception:
+            _TV["v"] = None
+    return _TV["v"]
+
+
 def controller_model(facts, res, k_try, k_int, k_req):
     """Inductive model of the interrupt controller.  The controller's fields other than the queue are
     symbolic (typed), the queue is abstracted to (non-empty, at least two) plus push/pop effects.
@@ -429,6 +446,7 @@ def controller_model(facts, res, k_try, k_int, k_req):
 
 def run(ctx, res):
     facts = ctx["facts"]
+    _TV.clear()
     res.explanation = __doc__.split("\n\n", 1)[1].replace("\n", " ")
     res.rule = "fixpoint over abstract controller states (aux fields x queue emptiness); per reachable state and trace: (pop or enter) => !CCR.I, entered == popped, one pop, one push per request, FIFO operations only, no starvation cycle; who-may-call tables"
     res.trusted = ["rustc MIR", "h8facts", "interp.py/models.py", "bdd.py"]
@@ -590,7 +608,16 @@ def run(ctx, res):
                 if bad:
                     res.finding("requester|%s|vector" % key.split("::")[-1], "%s requests vector number(s) %r outside 1..=63" % (key, bad))
                 elif unknown:
-                    res.errors.append("%s requests a vector number that is computed in %s: not decidable by this rule" % (key, unknown[0]))
+                    # a number taken from a table / computed: for the timer, the tick analysis of rules/c17 interprets the code and
+                    # observes the numbers actually passed
+                    obs = timer_vectors(facts) if "timer8" in key else None
+                    if obs is not None and None not in obs and obs:
+                        requested.update(obs)
+                        badv = sorted(v for v in obs if not (1 <= v <= 63))
+                        if badv:
+                            res.finding("requester|%s|vector" % key.split("::")[-1], "%s requests vector number(s) %r outside 1..=63" % (key, badv))
+                    else:
+                        res.errors.append("%s requests a vector number that is computed in %s: not decidable by this rule" % (key, unknown[0]))
     res.inventory["request_sites"] = nreq
     res.inventory["requested_vectors"] = sorted(requested)
     res.floor("distinct vector numbers requested by peripherals", len(requested), 3)
